@@ -69,6 +69,9 @@ def generate(rng, small=True):
     for b in sorted(used_bands):
         for j in range(rng.randint(0, 2)):
             pop["subfilter"].append({"band": b, "id": j})
+    if rng.random() < 0.6:
+        # a subfilter whose band no physical_filter has (nothing forbids it: `band` has no table, so there is no foreign key)
+        pop["subfilter"].append({"band": rng.choice(["z"] + sorted(set(bands) - used_bands)), "id": rng.choice([0, 5])})
     for sm in ("S1", "S2")[: rng.choice([1, 1, 2])]:
         pop["skymap"].append({"name": sm, "hash": sm.encode() * 4, "tract_max": 10, "patch_nx_max": 4, "patch_ny_max": 4})
         for t in range(rng.randint(1, 3)):
